@@ -20,6 +20,8 @@ CASE_FOLD = [
     (['stra\u00dfe', 'STRASSE'], ['strasse', 'STRA\u1e9eE', 'Stra\u00dfe']),
     (['\u017f', 's'], ['S', '\u017f']),                          # long s upper-cases to S
     (['\u0436\u0416', 'q'], ['\u0416\u0436', '\u0436\u0436', 'Q']),
+    (['\u00b5S', 'a'], ['\u00b5s', '\u039cS', '\u03bcs']),                # micro sign: its upper case sorts AFTER it in UTF-8
+    (['\u00ffx', 'b'], ['\u00ffX', '\u0178x', '\u0178X']),                # y diaeresis likewise
     (['\ud801\udc00'.encode('utf-16', 'surrogatepass').decode('utf-16'), 'm'], ['\ud801\udc28'.encode('utf-16', 'surrogatepass').decode('utf-16'), 'M']),  # Deseret
 ]
 
@@ -104,6 +106,17 @@ def generate(ctx):
         for op in ('to_string', 'to_pretty_string'):
             ids = [ctx.add('%s_raw %s' % (op, x), diff=False).id for x in (b, t_rfc)]
             ctx.groups.append((op + '_raw', ids))
+    # deterministic: objects of different sizes with shared keys through concat in every text / JSONB combination (the tree branch
+    # is a second implementation of the merge)
+    u = lambda n: ('u', n)
+    small = [('o', [(b'b', u(1))]), ('o', [(b'a', u(1)), (b'z', ('s', b'l'))]), ('o', [])]
+    large = [('o', [(b'a', u(10)), (b'b', u(20)), (b'c', u(30))]), ('o', [(b'', u(5)), (b'a', ('a', [u(1)])), (b'b', ('o', [])), (b'y', u(8)), (b'z', u(9))])]
+    for x in small + large:
+        for y in small + large:
+            args = [(gen.hexarg(gen.enc(v)), gen.hexarg(gen.json_text(v))) for v in (x, y)]
+            for op in ('concat {} {}', 'contains {} {}', 'compare {} {}'):
+                ids = [ctx.add(op.format(a, b)).id for a in args[0] for b in args[1]]
+                ctx.groups.append((op, ids))
     # deterministic: the ignore-case lookup folds ASCII letters only, in both forms -- keys and names that differ by the case of
     # NON-ASCII letters, or that full Unicode folding would identify with an ASCII name (Kelvin sign, dotted capital I, sharp s,
     # long s), must give the same answer for a text and for its encoding (a seeded change showed the random swapcase above
